@@ -140,7 +140,8 @@ pub enum Step {
     /// `n` packets of one kind in a row (state growth): 0 PATH_CHALLENGE from n different addresses,
     /// 1 CRYPTO at ever higher offsets, 2 one-byte STREAM frames behind gaps, 3 NEW_CONNECTION_ID each
     /// retiring everything before it, 4 PING packets with sparse packet numbers, 5 ACK frames with many
-    /// ranges, 6 STOP_SENDING/MAX_STREAM_DATA for every stream index up to the limit
+    /// ranges, 6 STOP_SENDING/MAX_STREAM_DATA for every stream index up to the limit, 7 NEW_CONNECTION_ID for
+    /// already retired sequence numbers
     Flood { kind: u8, n: u16 },
 }
 
@@ -1057,7 +1058,7 @@ impl<'a> Run<'a> {
                     if !self.victim_alive() {
                         break;
                     }
-                    match kind % 7 {
+                    match kind % 8 {
                         0 => {
                             let d = self.pw.p.packet(2, &[Frame::PathChallenge(mix(self.c.seed, j)), Frame::Padding(1200)], 0);
                             self.pw.send_from(crate::simnet::addr_v6(0x100 + j as u16, 9000 + j as u16), d);
@@ -1100,6 +1101,28 @@ impl<'a> Run<'a> {
                             tok[..8].copy_from_slice(&mix(self.c.seed ^ 0x70c, seq).to_le_bytes());
                             let d = self.pw.p.packet(2, &[Frame::NewConnectionId { seq, retire_prior_to: seq, cid: cid.clone(), reset_token: tok }], 0);
                             // later packets must carry an ID the victim still considers valid
+                            self.pw.send(d);
+                        }
+                        7 => {
+                            // NEW_CONNECTION_ID frames for sequence numbers the victim has already retired: first
+                            // one frame that moves Retire Prior To far ahead, then a different old number each time
+                            if self.pw.p.scid.is_empty() {
+                                break;
+                            }
+                            let (seq, rpt) = if j == 0 {
+                                self.ncid_seq += 100_000;
+                                self.ncid_retired = self.ncid_seq;
+                                (self.ncid_seq, self.ncid_seq)
+                            } else {
+                                (self.ncid_retired.saturating_sub(j).max(1), 0)
+                            };
+                            let mut cid = self.mk_cid(8);
+                            cid[0] = seq as u8;
+                            cid[1] = (seq >> 8) as u8;
+                            cid[2] = (seq >> 16) as u8;
+                            let mut tok = [0u8; 16];
+                            tok[..8].copy_from_slice(&mix(self.c.seed ^ 0x70d, seq).to_le_bytes());
+                            let d = self.pw.p.packet(2, &[Frame::NewConnectionId { seq, retire_prior_to: rpt, cid, reset_token: tok }], 0);
                             self.pw.send(d);
                         }
                         4 => {
@@ -1491,7 +1514,7 @@ fn arb_step() -> impl Strategy<Value = Step> {
         2 => (prop_oneof![prop::collection::vec(any::<u8>(), 1..60), prop::collection::vec(any::<u8>(), 1200..1300)], any::<bool>()).prop_map(|(bytes, other_addr)| Step::Garbage { bytes, other_addr }),
         2 => (m, any::<bool>()).prop_map(|(m, long_header)| Step::Mutated { m, long_header }),
         5 => arb_vop().prop_map(Step::Victim),
-        1 => (0u8..7, 1u16..400).prop_map(|(kind, n)| Step::Flood { kind, n }),
+        1 => (0u8..8, 1u16..400).prop_map(|(kind, n)| Step::Flood { kind, n }),
         2 => prop_oneof![1u32..50_000, 50_000u32..3_000_000].prop_map(Step::Wait),
     ]
 }
